@@ -125,13 +125,13 @@ func (r rect) draw(dst backend.Canvas, attrs *attributes, _ *SVGImage, dims draw
 
 	dst.MoveTo(x+rx, y)
 	dst.LineTo(x+width-rx, y)
-	dst.CubicTo(x+width-rx+c1, y, x+width, y+c2, x+width, y+ry)
+	dst.CubicTo(x+width-rx+c1, y, x+width, y+ry-c2, x+width, y+ry)
 	dst.LineTo(x+width, y+height-ry)
 	dst.CubicTo(
 		x+width, y+height-ry+c2, x+width+c1-rx, y+height,
 		x+width-rx, y+height)
 	dst.LineTo(x+rx, y+height)
-	dst.CubicTo(x+rx-c1, y+height, x, y+height-c2, x, y+height-ry)
+	dst.CubicTo(x+rx-c1, y+height, x, y+height-ry+c2, x, y+height-ry)
 	dst.LineTo(x, y+ry)
 	dst.CubicTo(x, y+ry-c2, x+rx-c1, y, x+rx, y)
 	dst.LineTo(x+rx, y)
